@@ -146,6 +146,8 @@ def run(ck):
     constituents_rule(ck)
     from .c01 import weight_rules
     weight_rules(ck)
+    # the mapping object that supplies the weights (normalisation included) is read with the same lints
+    shared.no_live_view_in_mutating_loop(ck, ['vermouth/map_parser.py'])
     # the weight table stored on the particle is the table itself (null weights included), not a filtered copy
     shared.runs_every_molecule(ck, 'vermouth/processors/average_beads.py', 'DoAverageBead', 'MPT-every-molecule')
     ck.assume('the arithmetic of numpy.average and rigid-motion equivariance are not decided')
